@@ -42,6 +42,8 @@ type storeOp struct {
 	Text int    `json:"text,omitempty"` // text class for save
 	Via  int    `json:"via,omitempty"`  // 0 = cached long-lived server, 1 = fresh server process
 	Zone int    `json:"zone,omitempty"` // run: the recording process lives in a time zone this many minutes ahead of the server's
+	Alias  int  `json:"alias,omitempty"`  // the operand is named with an extension in the request: 1 = name.yml, 2 = name.yaml (the same DAG)
+	AliasB int  `json:"aliasB,omitempty"` // the same for the target of a rename
 	Straddle bool `json:"straddle,omitempty"` // run: the run is still in progress while the next operation is carried out, and ends after it
 }
 
@@ -128,6 +130,13 @@ func genStoreOps(tp *simrt.Tape, nNames, maxOps int) []storeOp {
 	for i := 0; i < n; i++ {
 		k := pick(tp, "create", "create", "save", "save", "save", "rename", "rename", "delete", "run", "run", "run", "update", "list", "sleep")
 		op := storeOp{Kind: k, A: tp.Draw(simrt.SGen, nNames), B: tp.Draw(simrt.SGen, nNames), Text: tp.Draw(simrt.SGen, nTextClasses), Via: tp.Draw(simrt.SGen, 3) / 2}
+		if k != "run" && k != "update" && chance(tp, 1, 6) {
+			// the same DAG addressed by its file name (report.yml and report.yaml are the DAG "report")
+			op.Alias = 1 + tp.Draw(simrt.SGen, 2)
+		}
+		if k == "rename" && chance(tp, 1, 6) {
+			op.AliasB = 1 + tp.Draw(simrt.SGen, 2)
+		}
 		if k == "run" {
 			// `start` typed in a shell whose TZ differs from the server's: the record's file name carries that wall clock
 			op.Zone = pick(tp, 0, 0, 0, 540, 60, 330)
@@ -179,6 +188,11 @@ func (h *storeCtx) applyOp(i int, op storeOp) bool {
 	_, aExists := h.m.text[a]
 	_, bExists := h.m.text[b]
 	tag := fmt.Sprintf("op %d %s", i, op.Kind)
+	ext := []string{"", ".yml", ".yaml"}
+	ra, rb := a+ext[op.Alias%3], b+ext[op.AliasB%3] // the names as the request spells them
+	if op.Alias != 0 || op.AliasB != 0 {
+		bump(h.out, "dag_addressed_by_file_name")
+	}
 	switch op.Kind {
 	case "sleep":
 		simrt.Sleep(time.Duration(1+op.Text*700) * time.Millisecond)
@@ -188,7 +202,7 @@ func (h *storeCtx) applyOp(i int, op storeOp) bool {
 		if aExists && h.statFaultOn {
 			*h.statFaultAt = dagFile(a)
 		}
-		h.server(op.Via, func(s *apiServer) { r = s.create(a) })
+		h.server(op.Via, func(s *apiServer) { r = s.create(ra) })
 		if h.statFaultAt != nil {
 			*h.statFaultAt = ""
 		}
@@ -219,7 +233,7 @@ func (h *storeCtx) applyOp(i int, op storeOp) bool {
 		h.marker++
 		text, valid := storeText(op.Text, h.marker)
 		var r apiResp
-		h.server(op.Via, func(s *apiServer) { r = s.action(a, act("save"), text, "", "", "") })
+		h.server(op.Via, func(s *apiServer) { r = s.action(ra, act("save"), text, "", "", "") })
 		if h.killed() {
 			return true
 		}
@@ -255,7 +269,7 @@ func (h *storeCtx) applyOp(i int, op storeOp) bool {
 		if aExists && bExists && h.statFaultOn {
 			*h.statFaultAt = dagFile(b)
 		}
-		h.server(op.Via, func(s *apiServer) { r = s.action(a, act("rename"), b, "", "", "") })
+		h.server(op.Via, func(s *apiServer) { r = s.action(ra, act("rename"), rb, "", "", "") })
 		if h.statFaultAt != nil {
 			*h.statFaultAt = ""
 		}
@@ -282,6 +296,12 @@ func (h *storeCtx) applyOp(i int, op storeOp) bool {
 			if len(h.m.hist[a]) > 0 {
 				bump(h.out, "rename_with_history")
 			}
+			if !r.ok() && op.Alias != 0 {
+				// the source was addressed by a file name: the server may not know it under that spelling. A
+				// refusal is fine as long as nothing changed (the comparison that follows sees to that)
+				bump(h.out, "rename_by_file_name_refused")
+				return true
+			}
 			if !r.ok() {
 				h.viol("rename-failed", histClass(h.m, a, b), "%s: rename %q -> %q (free name) failed: %d %s", tag, a, b, r.Code, r.Msg)
 				// the model follows the definition file so that the consequences are reported once
@@ -300,7 +320,7 @@ func (h *storeCtx) applyOp(i int, op storeOp) bool {
 		if h.unlinkFaults != nil {
 			faultsBefore = *h.unlinkFaults
 		}
-		h.server(op.Via, func(s *apiServer) { r = s.delete(a) })
+		h.server(op.Via, func(s *apiServer) { r = s.delete(ra) })
 		if h.killed() {
 			return true
 		}
